@@ -314,6 +314,8 @@ class Tracker:
             self.tell_known = True
         elif op == "setsize":
             self.size = a["size"]
+        elif op == "draw" and a.get("during") and res == "ok":
+            self.size = a["during"]
         elif op == "resize":
             self.term = a["term"]
         elif op == "closeiter":
@@ -371,6 +373,11 @@ class Tracker:
             a = A("draw", animated=animated)
             if animated:
                 a.update(rep=rng.choice([1, 2]), cached=rng.random() < 0.5)
+            if (animated and self.anim and not self.closed and self.size != "dyn"
+                    and rng.random() < 0.6):
+                # the user sets another size while the animation is running
+                a["during"] = rng.choice([s for s in ("A", "B", "dyn") if s != self.size])
+                return a
             if can_fault:
                 a["fault"] = rng.choice(steps)
             return a
@@ -448,6 +455,8 @@ def scenario_of(trace: dict, upto: int) -> dict:
     for e in trace["events"][:upto]:
         a = dict(e["a"])
         a.pop("unfired", None)
+        if "during_unfired" in a:
+            a["during"] = a.pop("during_unfired")
         acts.append(a)
     return {"cfg": trace["cfg"], "init": trace["init"], "actions": acts}
 
@@ -528,6 +537,8 @@ def account(stats: Counter, rep: Report, trace: dict) -> None:
             stats["faultstep:" + a["fault"]] += 1
         if "unfired" in a:
             stats["unfired"] += 1
+        if a.get("during"):
+            stats["resize-during-draw"] += 1
         if o["pair"] != "na":
             stats["pairs"] += 1
         if o["gc"]:
@@ -585,6 +596,7 @@ def run_replay(rep: Report, replay: dict, server, stats: Counter) -> None:
             if world.init_failed:
                 break
             a = dict(a)
+            a.setdefault("during", "")
             fault = (a["fault"], a.pop("k", 1)) if a["fault"] != "none" else None
             world.execute(a, fault=fault)
         trace = world.trace()
@@ -713,7 +725,7 @@ def run_all(rep: Report, T: dict, server, stats: Counter) -> None:
         problems.append(f"no injected failure ever fired at step(s) {missing}")
     if stats.get("hits_expected") and not stats.get("hits_observed"):
         rep.notes.append("the cached iterators never reused a stored frame (speed only, no clause)")
-    for need in ("pairs", "hits_expected", "op:draw", "open:url:ok:ok",
+    for need in ("pairs", "hits_expected", "op:draw", "resize-during-draw", "open:url:ok:ok",
                  "open:url:404:URLNotFoundError", "open:url:notImage:UnidentifiedImageError",
                  "open:url:ctorFails:ValueError", "open:pil:ok:ok"):
         if not stats.get(need):
